@@ -83,6 +83,10 @@ theorem bitmap_more_iff (o e : Nat) : bitmap_more o e = true ↔ o < e := by sim
 theorem others_count_eq (a b c : Nat) : others_count a b c = a + b + c := rfl
 theorem eager_iff (n : Nat) : eager_others n = true ↔ n = 0 := by simp [eager_others]
 
+/-- the listener's size guard lets through at most `_MAX_MSG_ABSOLUTE` = 8966 bytes -/
+theorem not_oversize_le {n : Nat} (h : oversize n = false) : n ≤ 8966 := by
+  simp [oversize] at h; omega
+
 /-! ### big-endian fields: the shift-and-or expressions are the usual positional values -/
 
 theorem shl8_or (a b : Nat) (hb : b < 256) : (a <<< 8) ||| b = a * 256 + b := by
